@@ -8,7 +8,8 @@ from core import AnalysisBroken, VERIF
 CHECKS = {
     "C15": [("R-GLOBAL", "r_global", "run_global", ("quick", "thorough")),
             ("R-CONSTSRC.ir", "r_constsrc", "run", ("quick", "thorough")),
-            ("R-FATTAB", "r_fattab", "run", ("quick", "thorough"))],
+            ("R-FATTAB", "r_fattab", "run", ("quick", "thorough")),
+            ("R-ABI.state", "r_abi", "run_state", ("quick", "thorough"))],
     "C04": [("R-ALLOC.who", "r_global", "run_alloc_who", ("quick", "thorough")),
             ("R-TMP", "r_tmp", "run", ("quick", "thorough")),
             ("R-ALIAS.mem", "r_alias", "run_mem", ("quick", "thorough")),
@@ -73,6 +74,7 @@ RULES = {
     "R-NORM": ("r_norm", "run"),
     "R-OVERLAP.contract": ("r_ovcontract", "run"),
     "R-ALLOC.blockmove": ("r_alloc", "run_blockmove"),
+    "R-ABI.state": ("r_abi", "run_state"),
 }
 
 EXPLANATION = {
@@ -214,6 +216,7 @@ ASSUMPTIONS = {
     "R-OVERLAP.contract": ["overlap contracts are the routines' own entry assertions (ASSERT (MPN_SAME_OR_INCR_P ..) etc.), re-extracted from the "
                            "-DWANT_ASSERT=1 export of the built units and every mpn/generic/*.c on each run",
                            "only call sites passing two parameters that are unmodified on every path from the entry are judged"],
+    "R-ABI.state": ["sections are judged by name (writable = not .text / .rodata* / .data.rel.ro* / metadata), stores by their addressing mode"],
     "R-ALLOC.blockmove": ["function-level pairing (not per path); parameter objects only"],
     "R-NORM": ["the classification of mpn routines into 'loses at most one high limb' and 'can cancel any number' assumes normalised inputs and exact "
                "operand sizes (the library's calling convention); callees outside the table and sites without a preceding mpn writer are undecided"],
